@@ -1,2 +1,74 @@
-From Coq Require Import ZArith List.
-From KV Require Import Model.C04 Proofs.C04.
+(* C04 — BN254 (pkg/altbn128) point encoding round-trips and decoding always terminates.
+   P is the BN254 base-field modulus of Model/C04.v; its primality is an explicit premise
+   (no primality certificate library is installed).  mod_sqrt P models big.Int.ModSqrt(., P),
+   sqrt_gfp2 P is sqrtGfP2 with the loop bounded by the Go constant hexRootOrder
+   (Gen/Consts_C04.v, regenerated from /repo on every run). *)
+From Coq Require Import ZArith Znumtheory List.
+From KV Require Import Gen.Consts_C04 Model.C04 Proofs.C04_alg Proofs.C04.
+Import ListNotations.
+Open Scope Z_scope.
+
+(* ---------------- G1 ---------------- *)
+(* every affine point of y^2 = x^3 + 3 with reduced coordinates (in particular every group
+   element other than the identity) survives Compress followed by DecompressToG1 *)
+Theorem g1_roundtrip : prime P -> forall x y,
+  0 <= x < P -> 0 <= y < P -> (y * y) mod P = (x * x * x + 3) mod P ->
+  decompress1 P (mod_sqrt P) (compress1 (Aff1 x y)) = R1 (Aff1 x y).
+Proof. exact Proofs.C04.g1_roundtrip. Qed.
+Print Assumptions g1_roundtrip.
+
+(* the same for any prime p = 3 mod 4 below 2^255 (the model is parametric in the modulus) *)
+Theorem g1_roundtrip_any_prime : forall p, prime p -> p mod 4 = 3 -> 3 < p -> p < 2 ^ 255 ->
+  forall x y, valid1 p (Aff1 x y) = true ->
+  decompress1 p (mod_sqrt p) (compress1 (Aff1 x y)) = R1 (Aff1 x y).
+Proof. exact Proofs.C04.g1_roundtrip_gen. Qed.
+Print Assumptions g1_roundtrip_any_prime.
+
+(* the guard "not the identity" is necessary: the identity element does not round-trip
+   (known finding C04-identity-encoding) *)
+Theorem g1_identity_roundtrip_refuted :
+  decompress1 P (mod_sqrt P) (compress1 Inf1) = Err1.
+Proof. exact Proofs.C04.g1_identity_roundtrip_refuted. Qed.
+Print Assumptions g1_identity_roundtrip_refuted.
+
+(* DecompressToG1 on ANY non-empty byte string (in particular all 32-byte strings) returns a
+   point on the curve with reduced coordinates, or an error: never a panic, never a hang.
+   Needs no primality. *)
+Theorem decompress1_total : forall m, m <> [] ->
+  match decompress1 P (mod_sqrt P) m with
+  | R1 Inf1 => True
+  | R1 (Aff1 x y) => 0 <= x < P /\ 0 <= y < P /\ (y * y) mod P = (x * x * x + 3) mod P
+  | Err1 => True
+  | Panic1 | Hang1 => False
+  end.
+Proof. exact Proofs.C04.decompress1_total. Qed.
+Print Assumptions decompress1_total.
+
+(* ---------------- G1HashToPoint ---------------- *)
+(* whenever the try-and-increment search returns, the result is an affine point on the curve *)
+Theorem hash_to_point_on_curve : forall fuel h r,
+  hash_to_point P (mod_sqrt P) fuel h = Some r ->
+  exists x y, r = R1 (Aff1 x y) /\ valid1 P (Aff1 x y) = true.
+Proof. exact Proofs.C04.hash_to_point_on_curve. Qed.
+Print Assumptions hash_to_point_on_curve.
+
+(* the result does not depend on the fuel: the function is deterministic *)
+Theorem hash_to_point_deterministic : forall f1 f2 h r1 r2,
+  hash_to_point P (mod_sqrt P) f1 h = Some r1 ->
+  hash_to_point P (mod_sqrt P) f2 h = Some r2 -> r1 = r2.
+Proof. exact Proofs.C04.hash_to_point_deterministic. Qed.
+Print Assumptions hash_to_point_deterministic.
+
+(* the search terminates for every digest: x = P - 1 gives x^3 + 3 = 2, a square modulo P, so
+   the loop stops at the latest there (a worst-case bound of P - h mod P iterations; that the
+   search stops within a few steps for SHA-256 outputs is a statistical fact, not a theorem) *)
+Theorem hash_to_point_terminates : forall h,
+  exists fuel r, hash_to_point P (mod_sqrt P) fuel h = Some r.
+Proof. exact Proofs.C04.hash_to_point_terminates. Qed.
+Print Assumptions hash_to_point_terminates.
+
+(* ---------------- the executable predicate means what it says ---------------- *)
+Theorem valid1_iff : forall p x y, valid1 p (Aff1 x y) = true <->
+  (0 <= x < p /\ 0 <= y < p /\ (y * y) mod p = (x * x * x + 3) mod p).
+Proof. exact Proofs.C04.valid1_iff. Qed.
+Print Assumptions valid1_iff.
